@@ -157,6 +157,7 @@ func twinOnFatal(prop, mode string, cfg Config, prof *Profile, ops []Op, a *Sim)
 		for len(b.pads) < a.resetSnap.pads {
 			b.pads = append(b.pads, ecs.TypeID(b.W, PadType(len(b.pads))))
 		}
+		b.rebuilding = true
 		for _, spec := range a.resetSnap.filters {
 			sp := spec
 			b.opNewFilter(&Op{K: KNewFilter, Spec: &sp})
@@ -164,7 +165,11 @@ func twinOnFatal(prop, mode string, cfg Config, prof *Profile, ops []Op, a *Sim)
 		for _, o := range a.resetSnap.observers {
 			sp := o.Spec
 			b.opNewObserver(&Op{K: KNewObserver, Obs: &sp, Scr: o.Script, N: 1})
+			if o.Invalid && len(b.observers) > 0 {
+				b.observers[len(b.observers)-1].Invalid = true
+			}
 		}
+		b.rebuilding = false
 		for i := k + 1; i < end && !b.fatal; i++ {
 			b.OpIdx = i
 			b.Step(&ops[i])
@@ -261,6 +266,7 @@ func runResetTwin(cfg Config, prof *Profile, ops []Op, a *Sim) *Violation {
 	for len(b.pads) < a.resetSnap.pads {
 		b.pads = append(b.pads, ecs.TypeID(b.W, PadType(len(b.pads))))
 	}
+	b.rebuilding = true
 	for _, spec := range a.resetSnap.filters {
 		sp := spec
 		b.opNewFilter(&Op{K: KNewFilter, Spec: &sp})
@@ -271,6 +277,10 @@ func runResetTwin(cfg Config, prof *Profile, ops []Op, a *Sim) *Violation {
 		if o.Invalid && len(b.observers) > 0 {
 			b.observers[len(b.observers)-1].Invalid = true
 		}
+	}
+	b.rebuilding = false
+	if len(b.observers) != len(a.resetSnap.observers) || len(b.filters) != len(a.resetSnap.filters) {
+		bug("reset twin: rebuilt %d observers / %d filters, snapshot has %d / %d", len(b.observers), len(b.filters), len(a.resetSnap.observers), len(a.resetSnap.filters))
 	}
 	for i := k + 1; i < len(ops) && !b.fatal; i++ {
 		b.OpIdx = i
